@@ -10,6 +10,7 @@ import itertools
 from hypothesis import strategies as st
 
 from pbt.core import Outcome
+from pbt.props._exc import make as _exc
 
 TECHNIQUE = "exhaustive enumeration of 1-3 stage pipelines over all checkpoint/processor/handler behaviours + Hypothesis-generated 1-5 stage pipelines, judged by invariants over the invocation log"
 LEVEL_TEXT = ("Exploration: every pipeline is run on the real Cascade with logging callables; the log is checked for gate-before-processor with the same signal, "
@@ -44,7 +45,7 @@ _json = st.recursive(st.one_of(st.none(), st.booleans(), st.integers(-5, 5), st.
 
 
 def strategy(tier):
-    plain = st.fixed_dictionaries({"halt": st.booleans(), "max_amp": st.sampled_from([10, 100]), "input": st.integers(0, 3),
+    plain = st.fixed_dictionaries({"halt": st.booleans(), "max_amp": st.sampled_from([10, 100]), "input": st.integers(0, 3), "exc": st.integers(0, 15), "names": st.sampled_from(["unique", "unique", "same", "pairs"]),
                                    "stages": st.lists(_stage, min_size=1, max_size=5)})
     mapk = st.fixed_dictionaries({"mapk": st.just(True), "halt": st.booleans(), "max_amp": st.sampled_from([10, 100, 1000, 5000]),
                                   "amps": st.lists(st.sampled_from([0.5, 1, 2, 10, 200]), min_size=3, max_size=3), "input": _json})
@@ -60,6 +61,17 @@ def enumerate_cases(tier):
         for d in range(1, depth + 1):
             for combo in itertools.product(behaviours, repeat=d):
                 yield {"halt": halt, "max_amp": 10, "input": 0, "stages": list(combo)}
+                if d == 2:
+                    yield {"halt": halt, "max_amp": 10, "input": 0, "stages": list(combo), "names": "same"}
+
+
+def _stage_name(case, i):
+    mode = case.get("names", "unique")
+    if mode == "same":
+        return "stage"
+    if mode == "pairs":
+        return "s%d" % (i // 2)
+    return "s%d" % i
 
 
 class _Weird:
@@ -88,7 +100,7 @@ def judge(case):
             kind = spec["cp"]
             if kind == "raise":
                 log.append(("cp", i, list(sig) if isinstance(sig, list) else sig, "raise"))
-                raise RuntimeError("gate %d crashed" % i)
+                raise _exc(case.get("exc", 0) + i, "gate %d crashed" % i)
             res = {"pass": True, "reject": False, "truthy": _Weird(True), "falsy": _Weird(False)}[kind]
             log.append(("cp", i, list(sig) if isinstance(sig, list) else sig, bool(res)))
             return res
@@ -96,7 +108,7 @@ def judge(case):
         def proc(sig):
             if spec["proc"] == "raise":
                 log.append(("proc", i, list(sig) if isinstance(sig, list) else sig, "raise"))
-                raise ValueError("proc %d crashed" % i)
+                raise _exc(case.get("exc", 0) + i + 1, "proc %d crashed" % i)
             res = (list(sig) if isinstance(sig, list) else [sig]) + ["p%d" % i]
             log.append(("proc", i, list(sig) if isinstance(sig, list) else sig, list(res)))
             return res
@@ -104,12 +116,12 @@ def judge(case):
         def err(e):
             if spec["err"] == "raise":
                 log.append(("err", i, None, "raise"))
-                raise KeyError("handler %d crashed" % i)
+                raise _exc(case.get("exc", 0) + i + 2, "handler %d crashed" % i)
             res = ["r%d" % i]
             log.append(("err", i, None, list(res)))
             return res
 
-        return CascadeStage(name="s%d" % i, processor=proc, amplification=spec["amp"],
+        return CascadeStage(name=_stage_name(case, i), processor=proc, amplification=spec["amp"],
                             checkpoint=None if spec["cp"] == "none" else cp,
                             on_error=None if spec["err"] == "none" else err, required=spec["required"])
 
@@ -206,9 +218,12 @@ def judge(case):
             return out
     # R6 amplification
     fac = []
-    by_name = {r.stage_name: r for r in res.stage_results}
+    # every visited stage appends exactly one result, in order: align by position (stage names may repeat)
     for i, spec in enumerate(stages):
-        r = by_name.get("s%d" % i)
+        r = res.stage_results[i] if i < len(res.stage_results) else None
+        if r is not None and r.stage_name != _stage_name(case, i):
+            out.fail("stage-results-out-of-order", "stage result %d is named %r, stage %d is %r" % (i, r.stage_name, i, _stage_name(case, i)), d)
+            return out
         if r is not None and r.status == StageStatus.COMPLETED:
             pe = [e for e in log if e[0] == "proc" and e[1] == i]
             if pe and pe[0][3] != "raise" and not _close(r.amplification_factor, spec["amp"]):
